@@ -127,6 +127,23 @@ func operatorOK(s string) bool {
 	return true
 }
 
+// operatorGlueOK: prev is a bare operator symbol as rendered inside an s-expression and cur, the rendering of
+// the next value, may follow it without any separator: cur does not start with an operator character (the
+// two would merge), and the pair does not spell a signed number or a signed infinity.
+func operatorGlueOK(prev, cur string) bool {
+	if !operatorOK(prev) || cur == "" || isOp(cur[0]) {
+		return false
+	}
+	last := prev[len(prev)-1]
+	if (last == '+' || last == '-') && strings.HasPrefix(cur, "inf") {
+		return false
+	}
+	if (last == '-' || last == '.') && cur[0] >= '0' && cur[0] <= '9' {
+		return false
+	}
+	return true
+}
+
 // symbol renders a symbol token. where: 'v' value, 'a' annotation, 'f' field name; inSexp for operators.
 func (p *Printer) symbol(s model.Sym, where byte, inSexp bool) string {
 	if !s.HasText {
@@ -607,18 +624,27 @@ func (p *Printer) bare(v *model.Value, inSexp bool) string {
 	case model.Sexp:
 		var sb strings.Builder
 		sb.WriteString("(")
+		prev := ""
 		for i, k := range v.Kids {
+			sep := ""
 			if i > 0 {
 				if p.C.Flip("ws:comment-adjacent") {
 					// a comment alone separates two tokens, an operator in front of it included
-					sb.WriteString(p.comment() + p.optWS())
+					sep = p.comment() + p.optWS()
 				} else {
-					sb.WriteString(p.reqWS())
+					sep = p.reqWS()
 				}
 			} else {
-				sb.WriteString(p.optWS())
+				sep = p.optWS()
 			}
-			sb.WriteString(p.Value(k, true))
+			cur := p.Value(k, true)
+			if i > 0 && operatorGlueOK(prev, cur) && p.C.Flip("sexp:operator-adjacent") {
+				// an operator ends at the first character that is not an operator character: (+2007T) is + and 2007T
+				sep = ""
+			}
+			sb.WriteString(sep)
+			sb.WriteString(cur)
+			prev = cur
 		}
 		if len(v.Kids) > 0 {
 			// a trailing operator or number must not touch a comment: use plain whitespace first
